@@ -533,6 +533,10 @@ func evalChain(st *stats, c chainCfg, idx int, seed int64) (clause, detail, scri
 	case exp == "open":
 		return "", detail, script
 	case exp == "deny":
+		if strings.Contains(o.Pre, "<inst>") {
+			// `new` returned an object; a later failure of the method call does not count
+			return "instantiated", detail, script
+		}
 		if scriptErr || o.Status == "denied" {
 			if o.Status == "denied" {
 				bres := st.run(chainScript(c, pfx, only, true))
@@ -564,16 +568,12 @@ func chainKey(c chainCfg, idx int, clause string) string {
 		have |= c.ZImpl
 		abs = c.ZAbs
 	}
-	miss := []string{"nothing", "m2", "m1", "m1+m2"}[3-have]
+	_ = have
 	kind := "concrete"
 	if abs {
 		kind = "abstract"
 	}
-	src := c.Src
-	if c.M2InY {
-		src += "+m2-declared-in-Y"
-	}
-	return fmt.Sprintf("chain:%s:%s-%s-missing-%s:%s", clause, kind, cls, miss, src)
+	return fmt.Sprintf("chain:%s:%s-%s:methods-from-%s", clause, kind, cls, c.Src)
 }
 
 func chainWorker(w *pool.W, arg json.RawMessage) {
@@ -721,6 +721,10 @@ func summariseTypes(fails []typeFail, c *ev.Check, seed int64) {
 		if len(unusable) > 0 {
 			add(bd.group, "wrong-reject", "rejects-every-value-of("+strings.Join(unusable, " ")+")", b, ut, uv)
 		}
+		// everything else: grouped by clause and value base, the declared types listed
+		type lk struct{ cl, base string }
+		left := map[lk][]string{}
+		lrep := map[lk][2]int{}
 		for ti := range declTypes {
 			for vi := range valKinds {
 				k := cellK{ti, vi}
@@ -728,8 +732,17 @@ func summariseTypes(fails []typeFail, c *ev.Check, seed int64) {
 				if !ok || done[k] {
 					continue
 				}
-				add(bd.group, cl, fmt.Sprintf("%s:%s<-%s", cl, declTypes[ti].src, valKinds[vi].name), b, ti, vi)
+				g := lk{cl, valKinds[vi].base}
+				if _, ok := lrep[g]; !ok {
+					lrep[g] = [2]int{ti, vi}
+				}
+				if n := len(left[g]); n == 0 || left[g][n-1] != declTypes[ti].src {
+					left[g] = append(left[g], declTypes[ti].src)
+				}
 			}
+		}
+		for g, ts := range left {
+			add(bd.group, g.cl, fmt.Sprintf("%s:%s-for(%s)", g.cl, g.base, strings.Join(ts, " ")), b, lrep[g][0], lrep[g][1])
 		}
 	}
 	for k, bs := range bnds {
